@@ -446,6 +446,29 @@ func handle(req map[string]interface{}) (resp map[string]interface{}) {
 			resp["harness"] = err.Error()
 			return
 		}
+		if req["after_mutation"] == true {
+			// modify, in place, the containers and nested structs of an object from the constructor
+			// and of one from InitDefault: later objects must not see it
+			o1 := reflect.ValueOf(e.New())
+			mutate(o1, 0)
+			z1 := reflect.New(e.rt.Elem())
+			if m := z1.MethodByName("InitDefault"); m.IsValid() && m.Type().NumIn() == 0 {
+				m.Call(nil)
+				mutate(z1, 0)
+			}
+			// also what the getters of an all-unset object hand out
+			z2 := reflect.New(e.rt.Elem())
+			for i := 0; i < z2.NumMethod(); i++ {
+				name := z2.Type().Method(i).Name
+				mt := z2.Method(i).Type()
+				if strings.HasPrefix(name, "Get") && mt.NumIn() == 0 && mt.NumOut() == 1 {
+					func() {
+						defer func() { recover() }()
+						mutate(z2.Method(i).Call(nil)[0], 1)
+					}()
+				}
+			}
+		}
 		obj := reflect.ValueOf(e.New())
 		resp["value"] = dump(obj)
 		resp["inspect"] = inspect(obj)
@@ -575,6 +598,75 @@ func handle(req map[string]interface{}) (resp map[string]interface{}) {
 		resp["harness"] = "unknown op " + op
 	}
 	return resp
+}
+
+// bump changes a settable scalar.
+func bump(v reflect.Value) {
+	if !v.CanSet() {
+		return
+	}
+	switch v.Kind() {
+	case reflect.Bool:
+		v.SetBool(!v.Bool())
+	case reflect.Int8, reflect.Int16, reflect.Int32, reflect.Int64, reflect.Int:
+		v.SetInt(v.Int() + 1)
+	case reflect.Uint8:
+		v.SetUint(v.Uint() ^ 0x5a)
+	case reflect.Float64:
+		v.SetFloat(v.Float() + 1)
+	case reflect.String:
+		v.SetString(v.String() + "!")
+	}
+}
+
+// mutate modifies, in place, everything reachable through pointers, slices and
+// maps (the parts of a value that two objects could share).  Top-level scalar
+// fields (depth 0) are left alone: they are copies by construction.
+func mutate(v reflect.Value, depth int) {
+	if depth > 6 {
+		return
+	}
+	switch v.Kind() {
+	case reflect.Ptr:
+		if !v.IsNil() {
+			mutate(v.Elem(), depth+1)
+		}
+	case reflect.Struct:
+		for _, fi := range fieldsOf(v.Type()) {
+			f := v.Field(fi.Index)
+			switch f.Kind() {
+			case reflect.Ptr, reflect.Slice, reflect.Map, reflect.Struct:
+				mutate(f, depth+1)
+			default:
+				if depth > 0 {
+					bump(f)
+				}
+			}
+		}
+	case reflect.Slice:
+		for i := 0; i < v.Len(); i++ {
+			e := v.Index(i)
+			switch e.Kind() {
+			case reflect.Ptr, reflect.Slice, reflect.Map, reflect.Struct:
+				mutate(e, depth+1)
+			default:
+				bump(e)
+			}
+		}
+	case reflect.Map:
+		for _, k := range v.MapKeys() {
+			e := v.MapIndex(k)
+			switch e.Kind() {
+			case reflect.Ptr, reflect.Slice, reflect.Map:
+				mutate(e, depth+1)
+			default:
+				n := reflect.New(e.Type()).Elem()
+				n.Set(e)
+				bump(n)
+				v.SetMapIndex(k, n)
+			}
+		}
+	}
 }
 
 func elemType(t reflect.Type) string {
